@@ -8,6 +8,7 @@ import (
 	"fmt"
 	"go/ast"
 	"go/parser"
+	"go/printer"
 	"go/token"
 	"os"
 	"path/filepath"
@@ -531,6 +532,11 @@ func main() {
 	}
 	sb.WriteString("def facts : List (String × Bool) := [" + strings.Join(fl, ", ") + "]\n\n")
 	sb.WriteString("def stopOrder : List String := [" + quoteJoin(stopOrder) + "]\n\n")
+	// the algorithms of the bundled example store that Model/ExStore transcribes: a fingerprint (FNV-1a of the body as
+	// go/printer prints it without comments, whitespace collapsed) per function
+	sb.WriteString("/-- fingerprints of the example store's container algorithms (examples/go-redisd/server/{list,set,zset}.go):\n")
+	sb.WriteString("function, FNV-1a 64 of its body printed without comments and with whitespace collapsed -/\n")
+	sb.WriteString("def exStoreFingerprints : List (String × Nat) := [" + strings.Join(exStoreFingerprints(repo), ", ") + "]\n\n")
 	sb.WriteString("end GoRedis.Generated\n")
 	old, _ := os.ReadFile(out)
 	if string(old) != sb.String() {
@@ -643,6 +649,47 @@ func reentrantLocking(files []*ast.File) []string {
 	}
 	sort.Strings(bad)
 	return bad
+}
+
+// exStoreFingerprints: see the comment at its use.
+func exStoreFingerprints(repo string) []string {
+	want := map[string]bool{"List.LPop": true, "List.RPop": true, "List.LPush": true, "List.RPush": true, "List.Range": true, "clampRange": true, "List.Index": true,
+		"Set.Add": true, "Set.Rem": true, "ZSet.Add": true, "ZSet.Rem": true, "ZSet.Range": true, "ZSet.RangeByScore": true, "limitZSetMembers": true,
+		"reverseZSetMembers": true, "ZSet.Score": true, "ZSet.IncBy": true}
+	var out []string
+	for _, base := range []string{"list.go", "set.go", "zset.go"} {
+		fset := token.NewFileSet()
+		f, err := parser.ParseFile(fset, filepath.Join(repo, "examples/go-redisd/server", base), nil, 0)
+		if err != nil {
+			fmt.Fprintln(os.Stderr, "extract: cannot parse", base, err)
+			os.Exit(1)
+		}
+		for _, d := range f.Decls {
+			fd, ok := d.(*ast.FuncDecl)
+			if !ok || fd.Body == nil {
+				continue
+			}
+			name := fd.Name.Name
+			if r, _ := recvType(fd); r != "" {
+				name = r + "." + name
+			}
+			if !want[name] {
+				continue
+			}
+			var buf strings.Builder
+			printer.Fprint(&buf, fset, fd.Type)
+			buf.WriteString(" ")
+			printer.Fprint(&buf, fset, fd.Body)
+			text := strings.Join(strings.Fields(buf.String()), " ")
+			h := uint64(14695981039346656037)
+			for i := 0; i < len(text); i++ {
+				h = (h ^ uint64(text[i])) * 1099511628211
+			}
+			out = append(out, fmt.Sprintf("(%q, %d)", name, h))
+		}
+	}
+	sort.Strings(out)
+	return out
 }
 
 func quoteJoin(ss []string) string {
